@@ -132,6 +132,10 @@ func (filter *SearchableQueryFilter) filterColumnEqualComparisonExprs(stmt sqlpa
 		if !ok {
 			return true, nil
 		}
+		// `like ... escape ...` cannot become `= ... escape ...`: not a searchable comparison
+		if comparisonExpr.Escape != nil {
+			return true, nil
+		}
 
 		lColumn, ok := comparisonExpr.Left.(*sqlparser.ColName)
 		if !ok {
